@@ -197,12 +197,15 @@ def read_expected(pid):
 def prove(ctx, extra_targets=()):
     """stage 2: build Props.<ID>, audit axioms, fill obligations/discharged"""
     pid = ctx.pid
-    expected = read_expected(pid)
+    spaces = [pid] + list(getattr(ctx, "extra_props", []))   # e.g. C13 also owns Props/C13b.lean
+    expected = [(ns, th) for ns in spaces for th in read_expected(ns)]
     ctx.cov["obligations"] = len(expected)
     t = time.time()
-    ok, log = lake_build(["Props." + pid, "modeldriver"] + list(extra_targets))
+    ok, log = lake_build(["Props." + ns for ns in spaces] + ["modeldriver"] + list(extra_targets))
     ctx.cov["build_s"] = round(time.time() - t, 1)
-    files = module_closure("Props." + pid)
+    files = []
+    for ns in spaces:
+        files += [f for f in module_closure("Props." + ns) if f not in files]
     ctx.cov["lean_files"] = files
     failing = set()
     if not ok:
@@ -219,11 +222,14 @@ def prove(ctx, extra_targets=()):
     discharged = 0
     axioms_seen = set()
     if ok:
-        res, rc, alog = audit(pid, expected)
-        if rc != 0 and not res:
-            ctx.problem("audit", "axiom audit did not run", alog[-2000:])
-        for th in expected:
-            full = pid + "." + th
+        res = {}
+        for ns in spaces:
+            r1, rc, alog = audit(ns, None)
+            res.update(r1)
+            if rc != 0 and not r1:
+                ctx.problem("audit", "axiom audit did not run for " + ns, alog[-2000:])
+        for (ns, th) in expected:
+            full = ns + "." + th
             if full not in res:
                 ctx.problem("proof", "expected theorem missing: " + full)
                 continue
@@ -235,8 +241,8 @@ def prove(ctx, extra_targets=()):
                 discharged += 1
     ctx.cov["discharged"] = discharged
     ctx.cov["axioms_used"] = sorted(axioms_seen)
-    ctx.cov["checker_cmd"] = "cd lean && lake build Props.%s && lake env lean .audit/Audit%s.lean  (Lean.collectAxioms per theorem)" % (pid, pid)
-    ctx.cov["theorems"] = expected
+    ctx.cov["checker_cmd"] = "cd lean && lake build %s && lake env lean .audit/Audit<NS>.lean  (Lean.collectAxioms per theorem)" % " ".join("Props." + ns for ns in spaces)
+    ctx.cov["theorems"] = [ns + "." + th for (ns, th) in expected]
     return ok
 
 
